@@ -82,7 +82,7 @@ let rec nat_of_int_fast i = nat_of_int i
 let eval (op : string) (a : string list) : string =
   missing := false;
   match op, a with
-  | "wp", [ver; attrs; now; orc; recs] ->
+  | ("wp" | "ww"), [ver; attrs; now; orc; recs] ->
     parse_oracle orc;
     let rs = parse_irecs recs in
     let attrs = z_of_hex attrs and now = z_of_hex now in
@@ -154,6 +154,7 @@ let eval (op : string) (a : string list) : string =
         step s (ORef (ni b, segs))
       | ["ub"; b] -> step s (OUnrefBuf (ni b))
       | ["ur"; r] -> step s (OUnrefRef (ni r))
+      | ["wat"; b; off; d] -> pb_write_at s (ni b) (ni off) (bytes_of_hex d)
       | ["rdf"; b; d; src; ret] ->
         let data = bytes_of_hex d in
         let src = if src = "." then [] else
@@ -178,6 +179,7 @@ let eval (op : string) (a : string list) : string =
        let fin = refcs ^ " R " ^ reads in
        if op = "pgr" then String.concat ";" (List.rev !trace) ^ " " ^ fin else fin)
   | "pgc", [_; _] -> "ok"
+  | "wf", [_; _; _] -> "ok"
   | _ -> "BADCASE"
 
 let () =
